@@ -86,6 +86,14 @@ def check(spec, ctx):
     ev_t = ctx.call(spec, "sound_event_detection(tuples)", sound_event_detection, tuple(cps), tuple(cas), tuple(vocab))
     if ev_t.score != ev.score or len(ev_t.clip_evaluations) != len(ev.clip_evaluations):
         ctx.fail(f"sound_event_detection on tuples gives score {ev_t.score} over {len(ev_t.clip_evaluations)} clips, on lists {ev.score} over {len(ev.clip_evaluations)}", spec, ev_t.score, ev.score, kind="tuple_inputs")
+    # ... and so is any other collections.abc.Sequence (a deque, a user's own read-only container)
+    from vf.core import SeqView
+    import collections as _c
+
+    for how, S in (("a custom Sequence", SeqView), ("deques", _c.deque)):
+        ev_s = ctx.call(spec, f"sound_event_detection({how})", sound_event_detection, S(cps), S(cas), S(vocab))
+        if ev_s.score != ev.score or len(ev_s.clip_evaluations) != len(ev.clip_evaluations) or [c.score for c in ev_s.clip_evaluations] != [c.score for c in ev.clip_evaluations]:
+            ctx.fail(f"sound_event_detection on {how} gives score {ev_s.score} over {len(ev_s.clip_evaluations)} clips, on lists {ev.score} over {len(ev.clip_evaluations)}", spec, ev_s.score, ev.score, kind="sequence_inputs")
     ctx.case(spec, nontrivial=nontrivial, labels=labels, out={"clip_evaluations": len(ev.clip_evaluations), "score": ev.score})
 
     got_ids = sorted(str(ce.annotations.clip.uuid) for ce in ev.clip_evaluations)
